@@ -261,7 +261,7 @@ func (e *eng) everyCrashPoint() {
 				r.Fail("original-disturbed", "original after Save", "%s: after Save at position %d the original yields %q, the uninterrupted run yields %q", e.c, k, s, want)
 			}
 		}
-		if r.Tracing {
+		if r.Tracing && k > 2 {
 			r.Trace = r.Trace[:mark]
 		}
 		r.Count("crash_points", 1)
